@@ -38,6 +38,7 @@ type Obligation struct {
 	RefuteSolver string
 	Disagree     bool
 	lemmaIdx int
+	Wall     float64
 	Preset   bool // decided without a solver (structural obligations)
 }
 
